@@ -328,6 +328,24 @@ func c18(r *Run) {
 	// size read atomically and compared with the current pool
 	r.mustPass("C18.R3:size-read", "Run reads the configured size atomically", run, nil, []Start{Entry(run)}, func(i ssa.Instruction) bool { return atomicOn(i, "Load", fNum) }, nil, nil, "Load(numLoops) on every path")
 
+	// every new connection advances the round-robin counter once: the callers of Pick are one per connection (its operator),
+	// one per listener, and the warm-up; a second per-connection caller (the dialer's temporary slot) makes dialed connections
+	// take every other poller only
+	{
+		pick := w.MustFn("(*manager).Pick")
+		allowed := map[string]string{
+			"(*connection).initFDOperator": "the connection's own slot",
+			"(*server).Run":                "the listener's slot (once per listener)",
+			"Initialize":                   "warm-up: brings the pool up",
+			"init":                         "package initialisation",
+		}
+		for _, site := range callSitesOf(w, pick) {
+			fn := site.Parent()
+			name := w.FnName(fn)
+			why, ok := allowed[name]
+			r.ob("C18.R4:one-pick-per-connection:"+name, "Pick is called once per new connection (plus once per listener and at warm-up): a dialed connection that takes a second pick for a temporary slot advances the round-robin counter twice, and with an even number of pollers every dialed connection lands on the same poller", fn, site, ok, why, false)
+		}
+	}
 	// ---- R4 round robin ------------------------------------------------------------------------------
 	{
 		rr := w.MustFn("(*roundRobinLB).Pick")
